@@ -24,6 +24,11 @@ pub fn sections(ctx: &Ctx) -> Vec<(&'static str, u64)> {
         Tier::Quick => 120,
         Tier::Thorough => 1200,
     } * ctx.scale;
+    // rejected (and some still accepted) multi-entity programs: W2 with one token fault
+    let w2t = match ctx.tier {
+        Tier::Quick => 200,
+        Tier::Thorough => 4000,
+    } * ctx.scale;
     let w5 = match ctx.tier {
         Tier::Quick => (ctx.snippets.len() as u64).div_ceil(SNIPPET_BATCH).min(24),
         Tier::Thorough => (ctx.snippets.len() as u64).div_ceil(SNIPPET_BATCH),
@@ -35,6 +40,7 @@ pub fn sections(ctx: &Ctx) -> Vec<(&'static str, u64)> {
         ("w4", w4 * ctx.scale),
         ("w5", w5),
         ("w5-tokens", w5t),
+        ("w2-tokens", w2t),
     ]
 }
 
@@ -94,6 +100,23 @@ pub fn cases(ctx: &Ctx, section: &str, i: u64) -> Vec<Case> {
             // differ in schedule. Alternates corpus and generated graphs.
             let (label, fs, task) = crate::c08::faulted_scenario(ctx, &mut rng.sub("w4"), i);
             vec![det_case(&label, fs, task, &ctx.corpus, &mut rng, s.min(4))]
+        }
+        "w2-tokens" => {
+            let (label, fs, task) = crate::w2::scenario(&mut rng.sub("w2"), i);
+            let src = fs.files.values().next().cloned().unwrap_or_default();
+            let faults = crate::c08::token_faults(&src);
+            if faults.is_empty() {
+                return vec![];
+            }
+            let (what, text) = &faults[rng.sub("fault").below(faults.len() as u64) as usize];
+            vec![det_case(
+                &format!("{label} {what}"),
+                snippet_fs(text),
+                task,
+                &ctx.corpus,
+                &mut rng,
+                4,
+            )]
         }
         "w5-tokens" => {
             let mut out = Vec::new();
